@@ -720,6 +720,10 @@ def pipeline_experiment(sc):
         x, xs = x.copy(), xs.copy()
         for arr in (x, xs):
             arr[labels == 1] = 0
+            if np.dtype(dt).kind == "f" and sc["seed"] % 2:
+                # ... or whatever a dead channel's converter puts out: not-a-number, infinities (seed round i: 0 x NaN in the
+                # interpolation). What a channel labelled bad holds is never read, only replaced.
+                arr[labels == 1, (sc["seed"] % 5)::53] = [np.nan, np.inf, -np.inf][sc["seed"] % 3]
             arr[labels == 2] += (rng.standard_normal((int(np.sum(labels == 2)), ns)) * amp * 30).astype(dt)
     kw = _spatial_kwargs(sc, h)
     if kw is not None and "collection" in kw and haslab:
@@ -806,9 +810,13 @@ def flow_experiment(sc):
                 xp = x.copy()
                 rows = slice(j * BLK, (j + 1) * BLK)
                 xp[rows] += rng.standard_normal((BLK, ns)) * 2e-5
+                if lab6[j] in (1, 2):
+                    # what a dead / noisy channel may hold (seed round i: weight 0 times NaN): its content is never read, only
+                    # overwritten - the same perturbation as any other, and a result that is not a number has moved
+                    xp[rows, (j % 7)::97] = [np.nan, np.inf, -np.inf][j % 3]
                 yp = real(_call_destripe(xp.copy(), scd, h, labels))
                 d = np.max(np.abs(yp - y).reshape(NB, BLK, ns), axis=(1, 2)) / 1e-5
-                changed = [int(b) for b in range(NB) if d[b] > 1e-9]
+                changed = [int(b) for b in range(NB) if not d[b] <= 1e-9]
                 prep = fshift(scipy.signal.sosfiltfilt(_butter_sos("ap"), xp[rows]), h["sample_shift"][rows], axis=1)
                 own = bool(np.allclose(yp[rows], prep, rtol=1e-9, atol=1e-16)) and bool(np.allclose(y[rows], pre[rows], rtol=1e-9, atol=1e-16))
                 rec["perturb"].append({"j": int(j), "changed": changed, "own_unfiltered": own})
@@ -1087,6 +1095,9 @@ def plan(ctx, cases):
     for c in chosen:
         out3 = [j for j in range(NB) if c["labels"][j] == 3]
         pert = rng.sample(out3, min(2, len(out3))) + [rng.choice([j for j in range(NB) if c["labels"][j] != 3])]
+        bad = [j for j in range(NB) if c["labels"][j] in (1, 2) and j not in pert]
+        if bad:
+            pert.append(bad[len(jobs) % len(bad)])      # a dead / noisy block as well (perturbed with NaN / inf)
         # NP1 / NP2 only: a block of 64 channels spans 640 / 480 um there, so that "within kriging reach" (72 um) is
         # block adjacency as in the model; NPultra's 384 sites span 288 um in all
         jobs.append(("flow", {"gen": rng.choice(["NP1", "NP2"]), "variant": rng.choice(["kfilt", "car"]),
